@@ -1,7 +1,6 @@
 (* C08 -- pool work accounting returns to zero at quiescence.
    Statements only.  Model: Model/PoolModel.v; [wr] = workRemaining_, [acc] = queued + held/executing-not-yet-decremented +
-   sum localWorkDone + pending executeNext decrements + additions not yet placed + LEAKED, where LEAKED counts the tasks that the ring /
-   steal-ring drain loops of resizeLocked and ~ThreadPool ran by calling task() directly.  Tie: event-level lockstep (props/C08.py); the
+   sum localWorkDone + pending decrements (executeNext and the drain loops) + additions not yet placed.  Tie: event-level lockstep (props/C08.py); the
    counter is read through the guarded accessor ThreadPool::verifWorkRemaining() / a private-access snapshot at quiescent points. *)
 From Coq Require Import ZArith List Bool.
 From DV Require Import Model.PoolModel Proofs.PoolProofs Proofs.C08Proofs.
@@ -10,36 +9,25 @@ Local Open Scope Z_scope.
 
 (* the accounting invariant over ALL accepted event sequences *)
 Theorem C08_accounting_invariant : forall rcap scap share n0 tr s,
-  accepts rcap scap share (init share n0) tr = Some s -> wr s = acc s /\ leaked s = drains tr.
+  accepts rcap scap share (init share n0) tr = Some s -> wr s = acc s.
 Proof. exact accounting. Qed.
 Print Assumptions C08_accounting_invariant.
 
-(* at quiescence (all tiers empty, every thread idle: nothing held, executing, pending, no local batch, no owed decrement) the counter
-   equals the number of drain pops that ever happened *)
-Theorem C08_workRemaining_at_quiescence : forall rcap scap share n0 tr s,
-  accepts rcap scap share (init share n0) tr = Some s -> quiescent s = true -> wr s = drains tr.
-Proof. exact wr_at_quiescence. Qed.
-Print Assumptions C08_workRemaining_at_quiescence.
+(* C08, unrestricted: at quiescence (all tiers empty, every thread idle: nothing held, executing, pending, no local batch, no owed
+   decrement) the counter is zero -- for every history of submissions, task-set use and resizes, including resizes and destructors that
+   drain queued ring / steal-ring work themselves (since fix 8892b78 those drains decrement like executeNext). *)
+Theorem C08_workRemaining_zero_at_quiescence : forall rcap scap share n0 tr s,
+  accepts rcap scap share (init share n0) tr = Some s -> quiescent s = true -> wr s = 0.
+Proof. exact wr_zero_at_quiescence. Qed.
+Print Assumptions C08_workRemaining_zero_at_quiescence.
 
-(* the statement one would like *)
-Definition C08_full_statement : Prop :=
-  forall rcap scap share n0 tr s, accepts rcap scap share (init share n0) tr = Some s -> quiescent s = true -> wr s = 0.
+(* regression: the former counterexample -- the real trace of "pool(4); TaskSet::scheduleBulk(2) to rings 0,1 (workRemaining_ += 2);
+   resize(2) before any worker pops" -- now ends quiescent with the counter at 0 (it used to stay at 2 for the rest of the pool's life) *)
+Example C08_regression_ring_drain : exists s,
+  accepts 16 32 8 (init 8 4) c08_witness = Some s /\ quiescent s = true /\ rz s = RIdle /\ done s = [1; 0] /\ wr s = 0.
+Proof. exact c08_regression_witness. Qed.
 
-(* It is FALSE of the code as written: witness = the real trace of "pool(4); TaskSet::scheduleBulk(2) to rings 0,1 (workRemaining_ += 2);
-   resize(2) before any worker pops: resizeLocked drains the two rings with task() and no decrement".  Both tasks are done, everything is
-   idle, and workRemaining_ stays 2 for the rest of the pool's life. *)
-Theorem C08_refuted : exists n0 tr s,
-  accepts 16 32 8 (init 8 n0) tr = Some s /\ quiescent s = true /\ rz s = RIdle /\ wr s = 2.
-Proof. destruct c08_refuted_witness as (s & H & Q & I & _ & W). exists 4, c08_witness, s. auto. Qed.
-Print Assumptions C08_refuted.
-
-(* It HOLDS on the complement of the finding's domain: histories without a ring / steal-ring drain pop *)
-Theorem C08_holds_except : forall rcap scap share n0 tr s,
-  accepts rcap scap share (init share n0) tr = Some s -> drains tr = 0 -> quiescent s = true -> wr s = 0.
-Proof. exact wr_zero_except. Qed.
-Print Assumptions C08_holds_except.
-
-(* non-vacuity: a real trace without drains (pool(2), two force-queued tasks, one of them pool-recursive, scheduleBulk(3), destructor)
+(* non-vacuity: a second real trace (pool(2), two force-queued tasks, one of them pool-recursive, scheduleBulk(3), destructor)
    that ends quiescent with the counter at 0 *)
 Definition c08_clean : list (nat * event) :=
   [(1%nat,EWorkerBegin 0); (2%nat,EWorkerBegin 1); (0%nat,EGen 0); (0%nat,ELoadNumThreads true 1); (0%nat,EAdd 1 1); (0%nat,EEnqCentral 0 1); (0%nat,EGen 1);
@@ -49,5 +37,5 @@ Definition c08_clean : list (nat * event) :=
    (1%nat,EBodyBegin 3); (1%nat,EBodyEnd 3); (1%nat,EPopCentral 4 1); (1%nat,EBodyBegin 4); (1%nat,EBodyEnd 4); (1%nat,ESub 4 3); (2%nat,EEnqCentral 1 1);
    (2%nat,EBodyEnd 1); (1%nat,EPopCentral 5 1); (1%nat,EBodyBegin 5); (1%nat,EBodyEnd 5); (1%nat,ESub 1 3); (2%nat,ESub 1 3)].
 Example C08_nonvacuous :
-  exists s, accepts 16 32 8 (init 8 2) c08_clean = Some s /\ drains c08_clean = 0 /\ quiescent s = true /\ wr s = 0 /\ length (done s) = 6%nat.
+  exists s, accepts 16 32 8 (init 8 2) c08_clean = Some s /\ quiescent s = true /\ wr s = 0 /\ length (done s) = 6%nat.
 Proof. eexists. vm_compute. repeat split. Qed.
